@@ -162,6 +162,10 @@ func (p *Path) quiesce(me *G) {
 	for {
 		next := p.pickNext(me)
 		if next == nil || next == me {
+			// nothing else can run: time passes, the earliest pending "late" timer elapses
+			if p.fireLateTimer() {
+				continue
+			}
 			break
 		}
 		p.handOff(next)
@@ -299,4 +303,20 @@ func (p *Path) closeChan(ch *Chan) {
 func (p *Path) makeChan(elem types.Type, capacity int, label string) *Chan {
 	p.chanN++
 	return &Chan{Cap: capacity, Elem: elem, Label: fmt.Sprintf("%s#%d", label, p.chanN), id: p.chanN}
+}
+
+// fireLateTimer fires the oldest pending mode-4 timer that some goroutine is waiting on.
+func (p *Path) fireLateTimer() bool {
+	for i, ch := range p.lateTimers {
+		if ch == nil {
+			continue
+		}
+		if g, idx := p.parkedOn(ch, false); g != nil {
+			p.lateTimers[i] = nil
+			p.wake(g, idx, timeVal(p, p.now()), true)
+			p.notes = append(p.notes, "late-timer:"+ch.Label)
+			return true
+		}
+	}
+	return false
 }
